@@ -136,8 +136,9 @@ type c05Child struct {
 }
 
 var (
-	c05Pool    []*c05Child
-	c05Spawned int64
+	c05Pool      []*c05Child
+	c05Spawned   int64
+	c05Discarded int64
 )
 
 func c05PoolGet(n int) []*c05Child {
@@ -381,7 +382,20 @@ func c05RunCase(t *rapid.T, rec *vfstat.Recorder, cs *c05Case) {
 	}
 	closeAll()
 
-	// (5) oracle
+	// (5) oracle. No faults are injected, so an SDK retry means the environment disturbed a
+	// request (seen once in 35 000 cases on a machine with load 60: a response body read failed
+	// locally); the outcome of a retried conditional write is ambiguous by nature, so such a
+	// case says nothing about the property and is set aside (counted, bounded in c05Test).
+	if fake != nil {
+		retries, foreign := fake.disturbed()
+		rec.Add("foreign_requests_ignored", foreign)
+		if retries > 0 {
+			rec.Add("cases_discarded_sdk_retry", 1)
+			rec.Note("case discarded, the SDK retried %d request(s): %s", retries, cs.desc())
+			c05Discarded++
+			return
+		}
+	}
 	v := c05Check(t, cs.Kind, ops)
 	var reqs []c05Req
 	if fake != nil {
@@ -454,6 +468,9 @@ func c05Test(t *testing.T, name string, kinds []string, modes []string, maxClien
 	defer func() {
 		c05PoolStop(false)
 		rec.Add("client_processes_spawned", c05Spawned)
+		if c05Discarded > 2 && c05Discarded*20 > rec.Evaluations() {
+			c05Inconclusive("%d cases (of %d checked) had to be set aside because the AWS SDK retried requests; the machine is too disturbed for a verdict", c05Discarded, rec.Evaluations())
+		}
 	}()
 	rapid.Check(t, func(t *rapid.T) {
 		kind := kinds[0]
